@@ -922,6 +922,16 @@ def run_cc_e2e(case):
 # clauses 15-16: relative entropy, Shannon entropy
 
 def _dist(draw, n, zeros):
+    if draw(st.integers(0, 3)) == 0:
+        # arbitrary floats (Dirichlet draw from a Hypothesis-drawn seed), optionally with exact zeros
+        rs = np.random.RandomState(draw(st.integers(0, 2 ** 31 - 1)))
+        v = rs.dirichlet(np.full(n, draw(st.sampled_from([0.3, 1.0, 5.0])))) + 1e-6
+        if zeros and n > 1:
+            v[rs.rand(n) < 0.3] = 0.0
+            if not v.any():
+                v[0] = 1.0
+        v = v / v.sum()
+        return [float(x) for x in v]
     tot = draw(st.sampled_from([1, 2, 3, 7, 10, 64, 100, 200]))
     cuts = sorted(draw(st.lists(st.integers(0, tot), min_size=n - 1, max_size=n - 1)))
     parts = [b - a for a, b in zip([0] + cuts, cuts + [tot])]
@@ -950,13 +960,18 @@ def kl_case(draw, max_n=8, max_rows=4):
         Q.append(q)
     return {"P": P[0] if one_d else P, "Q": Q[0] if one_d else Q, "one_d": one_d,
             "base": draw(st.sampled_from([None, 2, math.e, 10, 3.5])),
-            "as": draw(st.sampled_from(["list", "array"]))}
+            "as": draw(st.sampled_from(["list", "array", "strided"]))}
 
 
 def run_kl(case):
     P = [case["P"]] if case["one_d"] else case["P"]
     Q = [case["Q"]] if case["one_d"] else case["Q"]
-    conv = (lambda v: v) if case["as"] == "list" else (lambda v: np.array(v, dtype=float))
+    def strided(v):
+        v = np.array(v, dtype=float)
+        big = np.full(v.shape[:-1] + (2 * v.shape[-1],), 0.123)
+        big[..., ::2] = v
+        return big[..., ::2]
+    conv = {"list": lambda v: v, "array": lambda v: np.array(v, dtype=float), "strided": strided}[case["as"]]
     a, b = conv(case["P"]), conv(case["Q"])
     kw = {} if case["base"] is None else {"base": case["base"]}
     base = 2 if case["base"] is None else case["base"]
@@ -977,9 +992,10 @@ def run_kl(case):
             cl.append("equal")
         else:
             l1 = sum(abs(x - y) for x, y in zip(p, q))
-            # Pinsker: KL_nats >= L1^2/2; the grid keeps L1 >= 0.01
-            require(g >= 0.25 * l1 * l1 / math.log(base), "relative entropy of different distributions is (near) zero",
-                    row=r, got=g, p=p, q=q)
+            # Pinsker: KL_nats >= L1^2/2 (only asserted where that is far above rounding noise)
+            if l1 >= 1e-4:
+                require(g >= 0.25 * l1 * l1 / math.log(base),
+                        "relative entropy of different distributions is (near) zero", row=r, got=g, p=p, q=q)
             cl.append("inf" if math.isinf(want) else "finite_pos")
         require(close(g, want, 1e-12, 1e-12), "kl_divergence differs from sum p log(p/q)", row=r, got=g, want=want,
                 p=p, q=q, base=base)
@@ -999,14 +1015,21 @@ def shannon_case(draw, max_n=8):
     parts = [b - a for a, b in zip([0] + cuts, cuts + [tot])]
     if draw(st.booleans()) and 0 in parts:
         parts = [p + 1 for p in parts]
-    return {"counts": parts, "rows": rows, "normalize": draw(st.sampled_from([True, True, False, None])),
+    case = {"counts": parts, "rows": rows, "normalize": draw(st.sampled_from([True, True, False, None])),
             "give": draw(st.sampled_from(["counts", "probs", "scaled"]))}
+    if draw(st.integers(0, 3)) == 0:
+        case["probs"] = _dist(draw, m, True)       # arbitrary floats instead of a rational grid
+        case["give"] = draw(st.sampled_from(["probs", "scaled"]))
+    return case
 
 
 def run_shannon(case):
     c = case["counts"]
     tot = sum(c)
     p = [v / tot for v in c]
+    if "probs" in case:
+        p = case["probs"]
+        c = [1 if v > 0 else 0 for v in p]
     norm = case["normalize"]
     give = case["give"] if norm is not False else "probs"      # without normalisation only a distribution is valid
     data = {"counts": np.array(c, dtype=np.int64), "probs": np.array(p), "scaled": np.array(p) * 3.75}[give]
@@ -1024,7 +1047,7 @@ def run_shannon(case):
     require(got >= -1e-12 and got <= math.log(len(p)) + 1e-12, "entropy outside [0, log n]", got=got, n=len(p))
     return Info(0 in c and len([v for v in c if v]) > 1,
                 ["normalize=%s" % norm, "give=" + give, "zeros" if 0 in c else "no_zeros",
-                 "table" if case["rows"] else "vector"])
+                 "table" if case["rows"] else "vector", "float_p" if "probs" in case else "grid_p"])
 
 
 # --------------------------------------------------------------------------
@@ -1440,8 +1463,10 @@ CLAUSES = [
            doc="unchanged by reordering frames"),
     Clause("pooled_counts", pooled_case(), run_pooled, quick=400, thorough=6000,
            doc="computed from pooled counts when several trajectories are given"),
+    Clause("pooled_counts_long", pooled_case(max_T=600, max_traj=6), run_pooled, quick=0, thorough=320),
     Clause("weighted_uniform", weighted_case(), run_weighted_uniform, quick=400, thorough=6000,
            doc="equal to the weighted estimator under uniform weights"),
+    Clause("weighted_uniform_long", weighted_case(max_T=1000), run_weighted_uniform, quick=0, thorough=320),
     Clause("weighted_general", weighted_case(kinds=("integer", "zeros", "random", "random", "uniform_c")),
            run_weighted_general, quick=280, thorough=4000,
            doc="all weight vectors: weighted estimator equals the weighted reference / repeated frames"),
